@@ -1,6 +1,9 @@
 //! C16 implementation runner: conditional assembly with command-line defines through the REAL driver
 //! (src/driver.rs included privately: getopts, parse_define_arg, assemble_with_command) on a mock file server.
 //! line:   C <TAB> static(0|1) <TAB> defines (hex of each raw `-d` argument, `;`-separated, or `-`) <TAB> main-hex
+//!           [<TAB> layout]   layout = <number of `--`-separated output groups>:<group of define 0>,<group of define 1>,..
+//!           (absent = one group).  Group 0 is `main.asm -q -o out.bin`, the others `-f symbols -o outK.txt` / `-f hexstr ..`;
+//!           the static switch goes into the LAST group.
 //! answer: OK <TAB> output bytes hex|- <TAB> name:kind:value;..|-      (every declared symbol in declaration order;
 //!               kind c|l ; value b0|b1|i[-]hex|? )
 //!       | ERR <TAB> class          class of the FIRST top-level message: dup|skip|leftover|unused|eval|define|later|other
@@ -28,14 +31,30 @@ fn main() {
             return "?".to_string();
         }
         let src = unhex(f[3]);
-        let mut args: Vec<String> = vec!["customasm".into(), "main.asm".into(), "-q".into(), "-o".into(), "out.bin".into()];
-        if f[1] == "0" {
-            args.push("--debug-no-optimize-static".into());
-        }
-        if f[2] != "-" && !f[2].is_empty() {
-            for d in f[2].split(';') {
-                // `-dNAME=value` as one argument (a value starting with `-` would otherwise be taken for an option)
-                args.push(format!("-d{}", unhex(d)));
+        let defs: Vec<String> = if f[2] != "-" && !f[2].is_empty() { f[2].split(';').map(|d| unhex(d)).collect() } else { Vec::new() };
+        let (ngroups, place): (usize, Vec<usize>) = if f.len() > 4 && f[4].contains(':') {
+            let mut it = f[4].splitn(2, ':');
+            let n: usize = it.next().unwrap().parse().unwrap_or(1);
+            let pl = it.next().unwrap_or("").split(',').filter(|x| !x.is_empty()).map(|x| x.parse().unwrap_or(0)).collect();
+            (n.max(1), pl)
+        } else { (1, Vec::new()) };
+        let mut args: Vec<String> = vec!["customasm".into()];
+        for g in 0..ngroups {
+            if g == 0 {
+                args.extend(["main.asm", "-q", "-o", "out.bin"].iter().map(|x| x.to_string()));
+            } else {
+                args.push("--".into());
+                args.extend(["-f", if g % 2 == 1 { "symbols" } else { "hexstr" }, "-o"].iter().map(|x| x.to_string()));
+                args.push(format!("out{}.txt", g));
+            }
+            for (i, d) in defs.iter().enumerate() {
+                if place.get(i).copied().unwrap_or(0).min(ngroups - 1) == g {
+                    // `-dNAME=value` as one argument (a value starting with `-` would otherwise be taken for an option)
+                    args.push(format!("-d{}", d));
+                }
+            }
+            if g == ngroups - 1 && f[1] == "0" {
+                args.push("--debug-no-optimize-static".into());
             }
         }
         let r = guarded(|| {
